@@ -199,7 +199,12 @@ func runC07(t *mon.T, raw json.RawMessage) {
 	}
 	var roAns, srAns map[string]string
 	{
-		ro, err := blockstore.NewReadOnly(bytes.NewReader(file), supplied, opts...)
+		var backing io.ReaderAt = bytes.NewReader(file)
+		if d.Seed%3 == 0 {
+			backing = lab.EOFReaderAt{B: file} // full read at the very end comes with io.EOF
+			t.Cover("backing:eof-with-last-read")
+		}
+		ro, err := blockstore.NewReadOnly(backing, supplied, opts...)
 		if err != nil {
 			t.Violatef("blockstore.NewReadOnly/valid-archive/error", "NewReadOnly(%s, supplied=%q): %v", d.Container, d.Supplied, err)
 		} else {
@@ -222,7 +227,11 @@ func runC07(t *mon.T, raw json.RawMessage) {
 	// ---- storage.OpenReadable (cannot take a supplied index)
 	if d.Supplied == "" {
 		name := "storage.OpenReadable"
-		sr, err := storage.OpenReadable(bytes.NewReader(file), opts...)
+		var backing io.ReaderAt = bytes.NewReader(file)
+		if d.Seed%3 == 1 {
+			backing = lab.EOFReaderAt{B: file}
+		}
+		sr, err := storage.OpenReadable(backing, opts...)
 		if err != nil {
 			t.Violatef(name+"/valid-archive/error", "OpenReadable(%s): %v", d.Container, err)
 		} else {
